@@ -21,6 +21,21 @@ from tradingenv.contracts import AbstractContract
 PROPERTY = "C10"
 
 
+class CountingReward(_rewards_mod.AbstractReward):
+    """A user-defined stateful reward: the environment must reset it with every episode."""
+
+    def __init__(self):
+        self.n = 0
+
+    def reset(self):
+        self.n = 0
+
+    def calculate(self, env):
+        self.n += 1
+        nlv0 = env.broker.track_record[-1].context_pre.nlv
+        return env.broker.net_liquidation_value() / nlv0 - 1 + 0.001 * self.n
+
+
 def _snap_step(ep, out):
     r, done, info = out
     reb = info.get("_rebalancing")
@@ -113,6 +128,8 @@ def harness(c, cfg):
 
 def _harness(c, cfg):
     scen = cfg["scenario"]
+    if cfg.get("stateful_reward"):
+        cfg = dict(cfg, reward=CountingReward())
     epA = Episode(c, cfg, prefix="")
     ref = Runner(epA)
     try:
@@ -207,6 +224,7 @@ VARIANTS = {
     "spot": dict(sym_prices=True),
     "spot-fees-latency": dict(sym_prices=True, fees=True, latency="sym", M=1, free_kinds=["quote"]),
     "spot-delay": dict(sym_prices=True, delay=1),
+    "stateful-reward": dict(sym_prices=True, stateful_reward=True),
     "feature": dict(sym_prices=True, feature=True),
     "future": dict(sym_prices=True, contract="future", t_lo=(2030, 1, 1), t_hi=(2030, 5, 1)),
     "chain": dict(sym_prices=True, contract="chain", t_lo=(2030, 2, 20), t_hi=(2030, 3, 14)),
@@ -224,7 +242,7 @@ def configs(tier):
         cfg["id"] = "C10/" + variant + "," + ",".join("%s=%s" % kv for kv in sorted(kw.items()))
         out.append(cfg)
 
-    quick_variants = ["spot", "spot-fees-latency", "spot-delay", "feature", "future"]
+    quick_variants = ["spot", "spot-fees-latency", "spot-delay", "feature", "future", "stateful-reward"]
     for v in quick_variants:
         for scen in ("repeat", "abandon", "error", "fresh"):
             add(v, scenario=scen)
